@@ -10,7 +10,9 @@ RULE = ("cases = generated .sym files (MODULE line, then any number and order of
         "each fed to BreakpadIndexCreator as: one chunk, all 1-byte chunks, cut after every '\\r', cut after every '\\n', and random partitions; "
         "lookups at every symbol start, start+size-1, start+size, every line/inline boundary +-1, below the first and above the last symbol. "
         "Observed: index bytes identical across partitions (EQ), parse->serialize reproduces them (RT), lookups with a stored index equal self-indexed lookups (LKEQ), the lookup results. "
-        "Checked in Coq: results = straightforward reading of the text (well-formed files), = the index-based model, index bytes = model bytes. "
+        "Checked in Coq: results = straightforward reading of the text (well-formed files), = the index-based model, index bytes = model bytes, the model of parse_symindex_file reads them back. "
+        "Second stream: two mutated copies of every index (truncated, header counts / offsets bumped, magic or body bytes flipped, trailing bytes, unchanged) go through parse_symindex_file; acceptance and the "
+        "canonical re-serialization of the tables read must equal the model's. "
         "non-trivial = well-formed file where some lookup returns an inline chain")
 TRUSTED = ["the Coq tokenizers in Lib/Bytes.v + Model/BreakpadIndex.v transcribe the nom parsers (tag/space1/decimal_u32/hex_str); MODULE validity is modelled as 'third field is 32..40 hex digits'",
            "sort_unstable_by_key + dedup_by_key modelled as stable sort + keep-first (files with duplicate addresses/indices are outside the well-formedness hypothesis and only compared with the model)",
@@ -208,7 +210,79 @@ def evaluate(cases):
     flat = [v for r in res for v in r]
     if len(flat) != len(cases):
         raise K.TieBroken("verdict count mismatch %d vs %d" % (len(flat), len(cases)))
+    # second stream: mutated copies of the index bytes through parse_symindex_file, against the model of the parser
+    muts = _idx_mutations(cases, outl)
+    if muts:
+        mv = _eval_idx(os.path.join(bindir, "h_symbols"), muts)
+        for (ci, _), v in zip(muts, mv):
+            if v == 1 and flat[ci] % 10 in (0, 3, 4):
+                flat[ci] = flat[ci] - flat[ci] % 10 + 1
     return flat
+
+
+def _idx_mutations(cases, outl):
+    muts = []
+    for ci, (c, l) in enumerate(zip(cases, outl)):
+        head = l.partition(" | ")[0]
+        kv = dict(x.split("=", 1) for x in head.split())
+        if kv.get("IDX", "ERR") == "ERR":
+            continue
+        b = bytearray.fromhex(kv["IDX"])
+        rng = K.SplitMix64(c["seed"] ^ 0xABCDEF)
+        for _ in range(2):
+            m = bytearray(b)
+            k = rng.below(6)
+            if k == 0 and len(m) > 48:
+                m = m[:rng.below(len(m))]                                    # truncation
+            elif k == 1:
+                off = 12 + 4 * rng.below(9)                                   # a header count / offset field
+                m[off:off + 4] = (int.from_bytes(m[off:off + 4], "little") + rng.choice([1, 4, 16, 0x10000, 0xFFFFFFF0])).to_bytes(8, "little")[:4]
+            elif k == 2:
+                m[rng.below(8)] ^= 1 << rng.below(8)                          # magic
+            elif k == 3 and len(m) > 48:
+                m[48 + rng.below(len(m) - 48)] ^= 1 << rng.below(8)           # a byte of the body
+            elif k == 4:
+                m += bytes(rng.below(40))                                     # trailing bytes
+            else:
+                pass                                                          # unchanged
+            muts.append((ci, bytes(m)))
+    return muts
+
+
+def _eval_idx(binp, muts):
+    d = os.path.join(K.SCRATCH, "c10i_%d" % os.getpid())
+    os.makedirs(d, exist_ok=True)
+    try:
+        lines = []
+        for k, (_, b) in enumerate(muts):
+            p = os.path.join(d, "m%d.symindex" % k)
+            open(p, "wb").write(b)
+            lines.append(p)
+        rc, outl, err = K.run_lines(binp, ["idxrt"], lines, timeout=900)
+    finally:
+        shutil.rmtree(d, ignore_errors=True)
+    if rc != 0 or len(outl) != len(muts):
+        raise K.TieBroken("h_symbols idxrt failed (rc=%s, %d/%d): %s" % (rc, len(outl), len(muts), err[-300:]))
+    terms = []
+    for (_, b), l in zip(muts, outl):
+        l = l.strip()
+        if l.startswith("OK "):
+            h = l[3:]
+            obs = "(Some %s)" % K.coq_list([str(int(h[i:i + 2], 16)) for i in range(0, len(h), 2)])
+        else:
+            obs = "None"
+        terms.append("(%s, %s, %s)" % (K.coq_list([str(x) for x in b]), obs, "true" if "CouldntParseModuleInfoLine" in l else "false"))
+    _stats["idx_mutations"] = _stats.get("idx_mutations", 0) + len(muts)
+    _stats["idx_accepted"] = _stats.get("idx_accepted", 0) + sum(1 for l in outl if l.startswith("OK "))
+    shards = [K.case_defs("(bytes * option bytes * bool)", ch, fn="verdict_idx") for ch in K.chunked(terms, K.NCPU)]
+    try:
+        res = K.coq_eval(PROP, "From SV Require Import Lib.Bytes Model.BreakpadIndex Model.BreakpadIndexParse Tie.C10.\nOpen Scope N_scope.", shards, timeout=1800)
+    except RuntimeError as ex:
+        raise K.TieBroken(str(ex))
+    return [v for r in res for v in r]
+
+
+_stats = {}
 
 
 def known(case):
@@ -221,6 +295,7 @@ def describe(case):
 
 def distribution(cases):
     d = {"wellformed_intended": 0, "crlf": 0, "no_final_newline": 0, "size_hist": {}, "lookups": 0}
+    d.update(_stats)
     for c in cases:
         d["wellformed_intended"] += 1 if c.get("wf_intended") else 0
         d["crlf"] += 1 if "\r\n" in c["text"] else 0
